@@ -936,3 +936,74 @@ def expand_local_object_aliases(repo):
         if fn is not None:
             n += expand_local_object_aliases_in(fn)
     return n
+
+
+# ------------------------------------------------------------------------------------------------
+# `for f, x in zip(F, X)` (statement or comprehension)  ->  `for i, x in enumerate(X)` with f read as F[i]   (the index form the rules are anchored in)
+ZIP_PEEL_FUNCTIONS = [("desolver/differential_system.py", "handle_events"), ("desolver/differential_system.py", "OdeSystem.integrate")]
+
+
+def peel_zip_first_argument_in(fn):
+    n_done = 0
+    params = {a.arg for a in fn.args.posonlyargs + fn.args.args + fn.args.kwonlyargs}
+    counter = [0]
+
+    def rewrite(holder, body_nodes):
+        """holder: ast.For or ast.comprehension with .target / .iter"""
+        it, tg = holder.iter, holder.target
+        if not (isinstance(it, ast.Call) and isinstance(it.func, ast.Name) and it.func.id == "zip" and not it.keywords and len(it.args) >= 2):
+            return False
+        if not (isinstance(tg, (ast.Tuple, ast.List)) and len(tg.elts) == len(it.args) and all(isinstance(e, ast.Name) for e in tg.elts)):
+            return False
+        first = it.args[0]
+        if not isinstance(first, ast.Name) or first.id in params:
+            return False            # sequences handed in by the caller are iterated as they are; only locals built here (ev_f, active_events) are indexed
+        var = tg.elts[0].id
+        # the peeled variable must only be read in the body
+        for b in body_nodes:
+            for x in ast.walk(b):
+                if isinstance(x, ast.Name) and x.id == var and not isinstance(x.ctx, ast.Load):
+                    return False
+        counter[0] += 1
+        iname = "__zip_i%d" % counter[0]
+        rest_args, rest_tg = it.args[1:], tg.elts[1:]
+        new_iter_inner = rest_args[0] if len(rest_args) == 1 else ast.Call(func=ast.Name(id="zip", ctx=ast.Load()), args=rest_args, keywords=[])
+        new_tg_inner = rest_tg[0] if len(rest_tg) == 1 else ast.Tuple(elts=rest_tg, ctx=ast.Store())
+        holder.iter = ast.Call(func=ast.Name(id="enumerate", ctx=ast.Load()), args=[new_iter_inner], keywords=[])
+        holder.target = ast.Tuple(elts=[ast.Name(id=iname, ctx=ast.Store()), new_tg_inner], ctx=ast.Store())
+        for nd in (holder.iter, holder.target):
+            for x in ast.walk(nd):
+                ast.copy_location(x, it)
+
+        class R(ast.NodeTransformer):
+            def visit_Name(self, n):
+                if n.id == var and isinstance(n.ctx, ast.Load):
+                    new = ast.Subscript(value=ast.Name(id=first.id, ctx=ast.Load()), slice=ast.Name(id=iname, ctx=ast.Load()), ctx=ast.Load())
+                    for x in ast.walk(new):
+                        ast.copy_location(x, n)
+                    return new
+                return n
+        for i_, b in enumerate(body_nodes):
+            body_nodes[i_] = R().visit(b)
+        return True
+    for node in list(ast.walk(fn)):
+        if isinstance(node, ast.For):
+            if rewrite(node, node.body):
+                n_done += 1
+        elif isinstance(node, (ast.ListComp, ast.GeneratorExp, ast.SetComp)) and len(node.generators) == 1 and not node.generators[0].ifs:
+            box = [node.elt]
+            if rewrite(node.generators[0], box):
+                node.elt = box[0]
+                n_done += 1
+    if n_done:
+        _annotate(fn, getattr(fn, "_parent", None))
+    return n_done
+
+
+def peel_zip_loops(repo):
+    n = 0
+    for rel, q in ZIP_PEEL_FUNCTIONS:
+        fn = repo.maybe(rel, q)
+        if fn is not None:
+            n += peel_zip_first_argument_in(fn)
+    return n
